@@ -204,18 +204,21 @@ def Node.onChain (e : Env) (nd : Node) (t : Nat) : Bool := nd.chain.any fun b =>
 /-! ### the timer arithmetic, as functions of the durations (ns) -/
 
 /-- dbft.go:141-151: what a validator waits in a new view before it acts: the primary one block time in
-view 0 and nothing in later views, a backup `TimePerBlock << (view+1)` (doubling with every view) -/
-def baseTimeout (tpb : Nat) (primary : Bool) (view : Nat) : Nat :=
-  if primary then (if view == 0 then tpb else 0) else tpb <<< (view + 1)
+view 0 and nothing in later views, a backup `TimePerBlock << (view+1)` (doubling with every view). `pview` is
+the view `initializeConsensus` was CALLED for, `cview` the view the context is in when the timer is armed —
+they differ when the replay of cached ChangeViews changed the view inside the call (the primary test reads the
+context, the `view == 0` test the parameter). -/
+def baseTimeout (tpb : Nat) (primary : Bool) (pview cview : Nat) : Nat :=
+  if primary then (if pview == 0 then tpb else 0) else tpb <<< (cview + 1)
 
 /-- dbft.go:152-159: when the previous height is the one this validator last prepared, the time that has
 passed since then (`lastBlockTime`, set at the first checkPrepare of that round) is taken off — the wait
 counts from the previous block's proposal, not from its acceptance; `some none`: lastBlockTime is the zero
 time, the difference saturates and nothing is left; never below zero -/
-def roundTimeout (tpb : Nat) (primary : Bool) (view : Nat) : Option (Option Nat) → Nat
-  | none => baseTimeout tpb primary view
+def roundTimeout (tpb : Nat) (primary : Bool) (pview cview : Nat) : Option (Option Nat) → Nat
+  | none => baseTimeout tpb primary pview cview
   | some none => 0
-  | some (some d) => baseTimeout tpb primary view - d
+  | some (some d) => baseTimeout tpb primary pview cview - d
 
 /-- send.go:50-53: the primary's timer after its PrepareRequest -/
 def afterRequest (tpb view : Nat) : Nat := (tpb <<< (view + 1)) - (if view == 0 then tpb else 0)
@@ -363,7 +366,7 @@ def initConsensus (k : W → Pl → W) (e : Env) (w : W) (view ts : Nat) : W :=
   let nd := w.nd
   let elapsed : Option (Option Nat) :=
     if nd.lbIndex + 1 == nd.bi then some (nd.lbTime.map fun t => w.now - t) else none
-  changeTimer w (roundTimeout e.tpb (nd.isPrimary && !nd.recovering) nd.view elapsed)
+  changeTimer w (roundTimeout e.tpb (nd.isPrimary && !nd.recovering) view nd.view elapsed)
 
 /-- check.go:155-180 -/
 def checkChangeView (k : W → Pl → W) (e : Env) (w : W) (view : Nat) : W :=
